@@ -22,7 +22,7 @@ sys.path.insert(0, HERE)
 FORBIDDEN = re.compile(r'\b(Admitted|admit|Axiom|Axioms|Parameter|Parameters|Conjecture|Hypothesis|Hypotheses|Variable|Variables)\b|Unset\s+Guard|bypass_check|type-in-type|impredicative-set|Admit\s+Obligations')
 TRUSTED_BASE = [
     'Coq 8.16.1 kernel (coqc); vm_compute for Examples and finite tables; no native_compute',
-    'Extraction with ExtrOcamlBasic only (bool, option, unit, list, prod, sum, sumbool); N, Z, positive, nat stay extracted inductives; no Extract Constant / Extract Inductive of our own',
+    'Extraction with ExtrOcamlBasic only (its directives: Extract Inductive bool, option, unit, list, prod, sumbool, sumor; Extract Inlined Constant andb, orb); N, Z, positive, nat stay extracted inductives; no Extract Constant / Extract Inductive of our own',
     'OCaml 4.13.1 compiler; /verif/ocaml/driver.ml (exchange format, printers)',
     'Python harness: generators, exchange encoding, obs projections, oracles (harness/)',
     'CPython 3.12 xml.etree.ElementTree / expat as the parser both sides start from; copy.deepcopy, list, dict, warnings, float(), int() beyond ASCII digits, dateutil',
